@@ -535,6 +535,11 @@ func (e *env) doCancel(s Step, last *LastObs) {
 		wasStarted = j.Start != nil
 		wasFinished = j.Completed || j.Canceled
 	})
+	if known {
+		w.mu.Lock()
+		w.st.Ack[s.J-1].Req++
+		w.mu.Unlock()
+	}
 	var err error
 	if s.Via == "http" {
 		code, _ := e.http("POST", "/job/cancel?id="+id.String(), nil)
